@@ -7,8 +7,8 @@
 #include <sys/mman.h>
 
 #define CHUNK 4096
-enum { K_DECODE8, K_DECODEF, K_ENCODE8, K_ROUNDTRIP, K_FOOTPRINT, K_YUV, NKINDS };
-static const char *kname[] = { "decode-to-a8r8g8b8", "decode-to-float", "encode-from-a8r8g8b8", "round-trip", "store-footprint", "yuv" };
+enum { K_DECODE8, K_DECODEF, K_ENCODE8, K_ROUNDTRIP, K_FOOTPRINT, K_YUV, K_LATEWRAP, NKINDS };
+static const char *kname[] = { "decode-to-a8r8g8b8", "decode-to-float", "encode-from-a8r8g8b8", "round-trip", "store-footprint", "yuv", "accessors-installed-after-first-use" };
 
 static pixman_format_code_t fmts[64]; static int nfmts;
 
@@ -87,6 +87,77 @@ static uint32_t expect_encode8 (pixman_format_code_t f, uint32_t argb, const pix
 
 static void src_to (pixman_image_t *s, pixman_image_t *d, int sx, int n) { pixman_image_composite32 (PIXMAN_OP_SRC, s, NULL, d, sx, 0, 0, 0, 0, 0, n, 1); }
 
+/* accessors that are not the identity on the storage (every byte kept XOR 0x5a), for images that are wrapped only after they were used */
+static long xor_reads, xor_writes;
+static uint32_t xor_read (const void *src, int size)
+{ xor_reads++; switch (size) { case 1: return *(const uint8_t *)src ^ 0x5au; case 2: { uint16_t v; memcpy (&v, src, 2); return v ^ 0x5a5au; } default: { uint32_t v; memcpy (&v, src, 4); return v ^ 0x5a5a5a5au; } } }
+static void xor_write (void *dst, uint32_t value, int size)
+{ xor_writes++; switch (size) { case 1: *(uint8_t *)dst = (uint8_t)(value ^ 0x5a); break; case 2: { uint16_t v = (uint16_t)(value ^ 0x5a5a); memcpy (dst, &v, 2); break; } default: value ^= 0x5a5a5a5au; memcpy (dst, &value, 4); break; } }
+
+static void latewrap_case (pixman_format_code_t f, long chunk, vf_rng *r, pixman_indexed_t *pal)
+{
+    int bpp = PIXMAN_FORMAT_BPP (f), w = 24; char key[160];
+    vf_buf S, D0, D1, D2, D3;
+    if (!vf_buf_alloc (&S, f, w, 1, 0, 0, VF_PLACE_END)) return;
+    vf_buf_alloc (&D0, PIXMAN_a8r8g8b8, w, 1, 0, 0, VF_PLACE_END); vf_buf_alloc (&D1, PIXMAN_a8r8g8b8, w, 1, 0, 0, VF_PLACE_END); vf_buf_alloc (&D2, PIXMAN_a8r8g8b8, w, 1, 0, 0, VF_PLACE_END); vf_buf_alloc (&D3, PIXMAN_a8r8g8b8, w, 1, 0, 0, VF_PLACE_END);
+    for (int i = 0; i < w; i++) vf_put_px (vf_buf_row (&S, 0), bpp, i, value_for (f, chunk, i, r));
+    pixman_image_t *a = vf_buf_image (&S), *d0 = vf_buf_image (&D0), *d1 = vf_buf_image (&D1), *d2 = vf_buf_image (&D2), *d3 = vf_buf_image (&D3);
+    if (pal) pixman_image_set_indexed (a, pal);
+    int reader_only = (int)(chunk & 1);
+    /* as a source: direct, then wrapped (reader only, or both callbacks), then unwrapped again */
+    src_to (a, d0, 0, w);
+    pixman_image_set_accessors (a, xor_read, reader_only ? NULL : xor_write);
+    xor_reads = 0; src_to (a, d1, 0, w); long reads_late = xor_reads;
+    pixman_image_t *b = vf_buf_image (&S); if (pal) pixman_image_set_indexed (b, pal);
+    pixman_image_set_accessors (b, xor_read, reader_only ? NULL : xor_write); src_to (b, d2, 0, w);
+    pixman_image_set_accessors (a, NULL, NULL); src_to (a, d3, 0, w);
+    vf_count ("evaluations", 3 * w); vf_count ("late_wrap_cases", 1);
+    for (int x = 0; x < w; x++) {
+        uint32_t v1 = ((uint32_t *)D1.base)[x], v2 = ((uint32_t *)D2.base)[x], v0 = ((uint32_t *)D0.base)[x], v3 = ((uint32_t *)D3.base)[x];
+        if (v1 != v2) { snprintf (key, sizeof key, "C10:accessors-installed-after-first-use-ignored:%s", rp_name (f)); vf_violation (key, "pixel %d reads %08x through an image that was used directly and then given %s, %08x through a fresh image with the same callbacks (%ld callback reads)", x, v1, reader_only ? "a read callback only" : "both callbacks", v2, reads_late); break; }
+        if (v3 != v0) { snprintf (key, sizeof key, "C10:accessors-removed-but-still-used:%s", rp_name (f)); vf_violation (key, "pixel %d reads %08x after the callbacks were removed again, %08x before they were installed", x, v3, v0); break; }
+    }
+    if (reads_late == 0) { snprintf (key, sizeof key, "C10:accessors-installed-after-first-use-not-called:%s", rp_name (f)); vf_violation (key, "the read callback installed after the first use was never called while %d pixels were fetched", w); }
+    /* as a destination (formats that can be written): direct store, then wrapped, compared with a fresh wrapped image */
+    if (pixman_format_supported_destination (f) && !rp_is_indexed (f)) {
+        vf_buf T1, T2, C; if (vf_buf_alloc (&T1, f, w, 1, 0, 0, VF_PLACE_END) && vf_buf_alloc (&T2, f, w, 1, 0, 0, VF_PLACE_END) && vf_buf_alloc (&C, PIXMAN_a8r8g8b8, w, 1, 0, 0, VF_PLACE_END)) {
+            vf_buf_fill_random (&C, r); memset (T1.base, 0, T1.bytes); memset (T2.base, 0, T2.bytes);
+            pixman_image_t *c = vf_buf_image (&C), *t1 = vf_buf_image (&T1), *t2 = vf_buf_image (&T2);
+            src_to (c, t1, 0, w);                                             /* first use: direct */
+            pixman_image_set_accessors (t1, xor_read, xor_write); pixman_image_set_accessors (t2, xor_read, xor_write);
+            xor_writes = 0; src_to (c, t1, 0, w); long w1 = xor_writes; src_to (c, t2, 0, w);
+            vf_count ("evaluations", w);
+            if (memcmp (T1.base, T2.base, T1.bytes)) { snprintf (key, sizeof key, "C10:accessors-installed-after-first-use-ignored:store:%s", rp_name (f)); vf_violation (key, "storing through an image wrapped after its first use leaves different bytes than through a fresh wrapped image (%ld callback writes)", w1); }
+            pixman_image_unref (c); pixman_image_unref (t1); pixman_image_unref (t2);
+        }
+        vf_buf_free (&T1); vf_buf_free (&T2); vf_buf_free (&C);
+    }
+    vf_cell ("cells", vf_mix (950 + reader_only, (uint64_t)f));
+    pixman_image_unref (a); pixman_image_unref (b); pixman_image_unref (d0); pixman_image_unref (d1); pixman_image_unref (d2); pixman_image_unref (d3);
+    vf_buf_free (&S); vf_buf_free (&D0); vf_buf_free (&D1); vf_buf_free (&D2); vf_buf_free (&D3);
+}
+
+/* YUV sources through the floating-point pipeline: the float reader must give narrow/255 */
+static void yuv_wide_case (pixman_format_code_t f, vf_rng *r)
+{
+    int w = 32, h = 4, stride = f == PIXMAN_yv12 ? w : w * 2;        /* bytes */
+    size_t bytes = (size_t)stride * h * 2 + 64; uint8_t *buf = malloc (bytes); if (!buf) return;
+    for (size_t i = 0; i < bytes; i++) buf[i] = (uint8_t)vf_next (r);
+    pixman_image_t *s = pixman_image_create_bits (f, w, h, (uint32_t *)buf, stride); if (!s) { free (buf); return; }
+    pixman_image_t *n = pixman_image_create_bits (PIXMAN_a8r8g8b8, w, h, NULL, 0), *fl = pixman_image_create_bits (PIXMAN_rgba_float, w, h, NULL, 0);
+    if (n && fl) {
+        pixman_image_composite32 (PIXMAN_OP_SRC, s, NULL, n, 0, 0, 0, 0, 0, 0, w, h); pixman_image_composite32 (PIXMAN_OP_SRC, s, NULL, fl, 0, 0, 0, 0, 0, 0, w, h);
+        const uint32_t *np = pixman_image_get_data (n); const float *fp = (const float *)pixman_image_get_data (fl); int ns = pixman_image_get_stride (n) / 4, fs = pixman_image_get_stride (fl) / 4;
+        vf_count ("evaluations", (long)w * h); vf_count ("yuv_wide_pixels", (long)w * h);
+        for (int y = 0; y < h; y++) for (int x = 0; x < w; x++) { uint32_t p = np[y * ns + x]; const float *q = fp + y * fs + 4 * x;       /* rgba_float: r, g, b, a */
+            double want[4] = { ((p >> 16) & 255) / 255.0, ((p >> 8) & 255) / 255.0, (p & 255) / 255.0, (p >> 24) / 255.0 };
+            for (int c = 0; c < 4; c++) if (!(q[c] >= want[c] - 1e-5 && q[c] <= want[c] + 1e-5)) { char key[96]; snprintf (key, sizeof key, "C10:decodef-yuv:%s", rp_name (f));
+                vf_violation (key, "pixel (%d,%d) channel %d (r,g,b,a): float reader gives %.6f, the 8-bit reader %08x i.e. %.6f", x, y, c, q[c], p, want[c]); y = h; x = w; break; } }
+    }
+    vf_cell ("cells", vf_mix (901, (uint64_t)f));
+    if (n) pixman_image_unref (n); if (fl) pixman_image_unref (fl); pixman_image_unref (s); free (buf);
+}
+
 static void c10_case (long idx, vf_rng *r)
 {
     pixman_format_code_t f = fmts[idx % nfmts];
@@ -104,7 +175,9 @@ static void c10_case (long idx, vf_rng *r)
     vf_inflight ("%s format=%s chunk=%ld", kname[kind], rp_name (f), chunk);
     vf_label ("format_kind", "%s/%s", rp_name (f), kname[kind]);
 
+    if (kind == K_LATEWRAP) { if (bpp <= 32 && !rp_is_float (f)) latewrap_case (f, chunk, r, pal); free (pal); return; }
     if (kind == K_YUV) {
+        if (chunk < 4) yuv_wide_case (f, r);
         /* yuy2: scanline reader vs single-pixel reader (forced by a non-affine identity transform) */
         if (f != PIXMAN_yuy2) return;
         vf_buf s, d1, d2; int w = 64;
